@@ -883,7 +883,11 @@ def gen_big_unit(ck, names):
     return u
 
 
-def cproc(cc, path, args=(), timeout=60):
+CPROC_TIMEOUT = [20]
+
+
+def cproc(cc, path, args=(), timeout=None):
+    timeout = timeout or CPROC_TIMEOUT[0]
     try:
         r = subprocess.run([cc] + list(args) + [path], stdout=subprocess.PIPE, stderr=subprocess.PIPE, text=True,
                            timeout=timeout, errors="replace")
@@ -1250,6 +1254,7 @@ def run_macros(ck, cc, names, d):
 def run_kb(ck):
     rng = ck.rng
     cc = ck.build_cproc_qbe()
+    CPROC_TIMEOUT[0] = 20 if ck.quick else 180
     d = os.path.join(ck.scratch(), "kb")
     os.makedirs(d, exist_ok=True)
     kb = ck.cov.setdefault("kb", {})
